@@ -14,6 +14,8 @@ package main
 
 import (
 	"fmt"
+	"go/ast"
+	"go/token"
 	"strings"
 
 	"golang.org/x/tools/go/ssa"
@@ -142,7 +144,7 @@ func (p *Prog) runOPA(s opaSpec) []opaViolation {
 		live := !(s.dischargeBlock != nil && s.dischargeBlock(b))
 		var lastPos ssa.Instruction
 		if live {
-			for idx, in := range b.Instrs {
+			for _, in := range b.Instrs {
 				if in.Pos().IsValid() {
 					lastPos = in
 				}
@@ -156,7 +158,8 @@ func (p *Prog) runOPA(s opaSpec) []opaViolation {
 						if len(r.Results) > 0 {
 							desc = "return " + p.vdescN(p.resolveSpill(r, len(r.Results)-1), 3)
 						}
-						key := "return after " + lastCall(b, idx)
+						key := "return under " + p.astGuardAt(r.Pos(), lastPos)
+						_ = lastCall
 						record(key+"|"+p.ipos(r), opaViolation{Exit: desc, Pos: p.ipos(r), K: k, Path: witness(b), Key: key})
 					}
 					live = false
@@ -195,7 +198,7 @@ func (p *Prog) runOPA(s opaSpec) []opaViolation {
 				if ifc != nil {
 					w = append(w, fmt.Sprintf("%s: %s is %v", p.ipos(b.Instrs[len(b.Instrs)-1]), p.vdescN(ifc, 4), si == 0))
 				}
-				key := "continue after " + lastCall(b, -1)
+				key := "next frame under " + p.astGuardAt(token.NoPos, lastPos)
 				record(key+"|"+at, opaViolation{Exit: "moves on to the next frame after " + at, Pos: at, K: ke, Path: w, Key: key})
 				continue
 			}
@@ -237,4 +240,54 @@ func (p *Prog) resolveSpill(r *ssa.Return, i int) ssa.Value {
 		}
 	}
 	return v
+}
+
+// astGuardAt names a program point by the innermost enclosing condition in the
+// source (`if` condition, with "else" when in the else branch, or case list):
+// a stable, role-like name for an exit path.
+func (p *Prog) astGuardAt(pos token.Pos, fallback ssa.Instruction) string {
+	if !pos.IsValid() && fallback != nil {
+		pos = fallback.Pos()
+	}
+	if !pos.IsValid() {
+		return "?"
+	}
+	var file *ast.File
+	for _, f := range append(append([]*ast.File{}, p.Files...), p.UFiles...) {
+		if f.Pos() <= pos && pos < f.End() {
+			file = f
+		}
+	}
+	if file == nil {
+		return "?"
+	}
+	best := "function body"
+	ast.Inspect(file, func(n ast.Node) bool {
+		if n == nil {
+			return true
+		}
+		if pos < n.Pos() || pos >= n.End() {
+			return false
+		}
+		switch x := n.(type) {
+		case *ast.IfStmt:
+			if pos >= x.Body.Pos() && pos < x.Body.End() {
+				best = "`" + p.text(x.Cond) + "`"
+			} else if x.Else != nil && pos >= x.Else.Pos() && pos < x.Else.End() {
+				best = "else of `" + p.text(x.Cond) + "`"
+			}
+		case *ast.CaseClause:
+			if len(x.List) > 0 {
+				var ts []string
+				for _, e := range x.List {
+					ts = append(ts, p.text(e))
+				}
+				best = "case " + strings.Join(ts, ", ")
+			} else {
+				best = "default case"
+			}
+		}
+		return true
+	})
+	return best
 }
